@@ -1,13 +1,14 @@
 #!/bin/bash
 # apply_fix.sh <diff> <demo.c|-> <message-file>  : lead-only. Demo must fail before and pass after; suite must stay 119/119.
+mkdir -p /tmp/lead_nat
 diff=$1; demo=$2; msgf=$3
 cd /repo || exit 2
 git diff --quiet || { echo "repo dirty"; exit 2; }
 git apply --check "$diff" || { echo "does not apply"; exit 2; }
-if [ "$demo" != "-" ]; then /verif/tools/native_build.sh "$demo" /tmp/nat/fixdemo >/dev/null 2>&1 || echo "demo build failed (before)"; ASAN_OPTIONS=detect_leaks=0 timeout 60 /tmp/nat/fixdemo >/tmp/nat/fixdemo.before 2>&1; b=$?; else b=na; fi
+if [ "$demo" != "-" ]; then /verif/tools/native_build.sh "$demo" /tmp/lead_nat/fixdemo >/dev/null 2>&1 || echo "demo build failed (before)"; ASAN_OPTIONS=detect_leaks=0 timeout 60 /tmp/lead_nat/fixdemo >/tmp/lead_nat/fixdemo.before 2>&1; b=$?; else b=na; fi
 git apply "$diff"
-if ! /verif/tools/run_baseline.sh >/tmp/nat/fixtests 2>&1; then cat /tmp/nat/fixtests; git checkout -- .; echo "TESTS FAIL -> reverted"; exit 1; fi
-if [ "$demo" != "-" ]; then /verif/tools/native_build.sh "$demo" /tmp/nat/fixdemo >/dev/null 2>&1 || echo "demo build failed (after)"; ASAN_OPTIONS=detect_leaks=0 timeout 60 /tmp/nat/fixdemo >/tmp/nat/fixdemo.after 2>&1; a=$?; else a=na; fi
-echo "demo before=$b after=$a; $(head -1 /tmp/nat/fixtests)"
+if ! /verif/tools/run_baseline.sh >/tmp/lead_nat/fixtests 2>&1; then cat /tmp/lead_nat/fixtests; git checkout -- .; echo "TESTS FAIL -> reverted"; exit 1; fi
+if [ "$demo" != "-" ]; then /verif/tools/native_build.sh "$demo" /tmp/lead_nat/fixdemo >/dev/null 2>&1 || echo "demo build failed (after)"; ASAN_OPTIONS=detect_leaks=0 timeout 60 /tmp/lead_nat/fixdemo >/tmp/lead_nat/fixdemo.after 2>&1; a=$?; else a=na; fi
+echo "demo before=$b after=$a; $(head -1 /tmp/lead_nat/fixtests)"
 if [ "$demo" != "-" ] && { [ "$b" = "0" ] || [ "$a" != "0" ]; }; then echo "DEMO does not discriminate (before=$b after=$a) -> NOT committed, left applied for inspection"; exit 3; fi
 git add -A src include; git commit -q -F "$msgf"; git log --oneline | head -1
